@@ -224,6 +224,54 @@ def worker(shard, part):
                             {"form": "coords", "kind": kind, "shape": [h, w], "coords": [list(c) for c in lst], "as": form},
                             {"expected": exp, "observed": obs},
                         )
+    elif what == "scale":
+        # big arrays around the classic thresholds (32 columns, 256 / 257 cells, 1000+ cells) with a fixed key menu
+        _, tier, kind, h, w = shard
+        a = make_array(kind, h, w)
+        L = [[y * w + x for x in range(w)] for y in range(h)]
+        a1 = "BoolArray1D" if kind == "bool" else "IntArray1D"
+        a2 = "BoolArray2D" if kind == "bool" else "IntArray2D"
+        el = "BoolVar" if kind == "bool" else "IntVar"
+        ax = lambda n: [0, -1, n - 1, n // 2, n, -n, -n - 1, slice(None), slice(None, None, -1), slice(1, None, 2), slice(None, None, -3),  # noqa: E731
+                        slice(1000, -1000, -1), slice(-1000, 1000, 7), slice(n - 1, 0, -1), slice(n // 2, None), slice(None, n // 2, -1), slice(-2, None), slice(31, 33)]
+        for ky in ax(h):
+            for kx in ax(w):
+                part.count("evaluations")
+                try:
+                    rows = L[ky]
+                    if isinstance(ky, int):
+                        sel = rows[kx]
+                        exp = ("elem", (), (sel,), el) if isinstance(kx, int) else ("1d", (len(sel),), tuple(sel), a1)
+                    elif isinstance(kx, int):
+                        if not rows:
+                            continue  # not judged (see assumptions)
+                        exp = ("1d", (len(rows),), tuple(r[kx] for r in rows), a1)
+                    else:
+                        sub = [r[kx] for r in rows]
+                        width = len(range(w)[kx])
+                        exp = ("2d", (len(sub), width), tuple(v for r in sub for v in r), a2)
+                except IndexError:
+                    exp = ("IndexError",)
+                obs = observe(lambda: a[ky, kx])
+                part.outcome("scale:" + exp[0])
+                if obs != exp:
+                    part.violation("scale-" + classify(key_class(ky), key_class(kx), exp, obs), {"form": "scale", "kind": kind, "shape": [h, w], "ky": key_repr(ky), "kx": key_repr(kx)},
+                                   {"expected": repr(exp)[:200], "observed": repr(obs)[:200]})
+        # flatten / reshape round trips
+        n = h * w
+        for (hh, ww) in ((h, w), (w, h), (1, n), (n, 1)):
+            part.count("evaluations")
+            try:
+                r = a.flatten().reshape((hh, ww))
+                ok = tuple(r.shape) == (hh, ww) and [v.id for v in r.data] == list(range(n)) and type(r).__name__ == a2 and r[hh - 1, ww - 1].id == n - 1
+                r2 = a.reshape((hh, ww))
+                ok = ok and [v.id for v in r2.data] == list(range(n))
+            except Exception as e:
+                ok = False
+                r = e
+            if not ok:
+                part.violation("scale-reshape", {"form": "scale", "kind": kind, "shape": [h, w], "to": [hh, ww]}, {"observed": repr(r)[:200]})
+        part.add("scale", (kind, h, w))
     elif what == "reshape":
         _, tier, kind = shard
         top = 12 if tier == "quick" else 24
@@ -297,6 +345,8 @@ def shards_for(tier):
             out.append(("2d-single", tier, kind, h, w))
         for n in (8, 13):
             out.append(("1d", tier, kind, n))
+        for (h, w) in ([(2, 40), (40, 2), (17, 17), (1, 300), (16, 16)] if tier == "quick" else [(2, 40), (40, 2), (17, 17), (1, 300), (300, 1), (16, 16), (33, 33), (3, 1100), (64, 65)]):
+            out.append(("scale", tier, kind, h, w))
         out.append(("reshape", tier, kind))
     return out
 
@@ -322,6 +372,8 @@ def replay(case):
         worker(("1d", tier, kind, case["n"]), part)
     elif form == "coords":
         worker(("coords", tier, kind) + tuple(case["shape"]), part)
+    elif form == "scale":
+        worker(("scale", tier, kind) + tuple(case["shape"]), part)
     else:
         worker(("reshape", tier, kind), part)
     mine = [v for v in part.violations if harness.jsonable(v.case) == case]
@@ -337,7 +389,8 @@ def main(tier, seed, only=None):
         "all shapes h,w in 0..4 (1-D n in 0..5) plus 5x6 (thorough: 5x5, 6x3, 3x6, 1x7, 7x1, 6x6, 2x9; 1-D 8 and 13) with a lighter key alphabet, bool and int arrays; keys: every int in [-n-2, n+1], every slice with "
         "start/stop in {None} u [-n-e, n+e] (e=2 quick, 3 thorough) and step in %s; all (row key, column key) pairs; "
         "all coordinate lists of length <= %d over [-h-1,h]x[-w-1,w]; reshape to every (h', w') and flatten. "
-        "Oracle: the same index on the Python list of lists (ids row-major).  Non-trivial = distinct cases whose "
+        "Scale family (not exhaustive): arrays 2x40, 40x2, 17x17, 16x16, 1x300 (thorough 33x33, 3x1100, 64x65) with an 18-key menu per axis "
+        "(ends, middle, full and strided reversals, far out-of-range bounds, the 31:33 window) and flatten/reshape round trips.  Oracle: the same index on the Python list of lists (ids row-major).  Non-trivial = distinct cases whose "
         "expected result is a non-empty selection or an IndexError." % (STEPS_Q if tier == "quick" else STEPS_T, 2 if tier == "quick" else 3),
     )
     run.assumptions = [
